@@ -1,7 +1,9 @@
 import RgVerif.Spec.PrinterSpec
 /-
 Helper lemmas for C09 / C10 about `find_iter_at_in_context`: what the collected matches look like for a matcher
-whose answers are sane (`Sane`), and when the first answer of the matcher is the head of the list.
+whose answers are sane (`Sane`), and when the first answer of the matcher is the head of the list.  Both branches
+(line-oriented: the line's own content searched from 0; multi-line: the cut buffer searched from `range.start`) are
+instances of one callback shape `gstep keep tr`: stop at the first match that is not kept, record `tr m` otherwise.
 -/
 namespace RgVerif.Lemmas.PrinterIter
 open RgVerif RgVerif.Matcher RgVerif.Replace RgVerif.Printer RgVerif.PrinterSpec
@@ -14,28 +16,43 @@ structure Sane (find : Nat → Option Span) (len : Nat) : Prop where
   le : ∀ p m, find p = some m → m.s ≤ m.e
   bound : ∀ p m, find p = some m → m.e ≤ len
 
-/-- the closure `find_iter_at_in_context` hands to `find_iter_at`, with the recording callback inlined -/
-def step (re : Nat) (atEnd : Bool) : List Span → Span → List Span × Bool :=
-  fun acc m => if beyondRange re atEnd m.s then (acc, false) else (acc ++ [⟨m.s, min m.e re⟩], true)
+/-- the callback shape of both branches -/
+def gstep (keep : Span → Bool) (tr : Span → Span) : List Span → Span → List Span × Bool :=
+  fun acc m => if keep m then (acc ++ [tr m], true) else (acc, false)
 
-theorem beyondRange_false_iff (re : Nat) (atEnd : Bool) (s : Nat) :
-    beyondRange re atEnd s = false ↔ (s < re ∨ (atEnd = true ∧ s = re)) := by
-  unfold beyondRange
-  cases atEnd <;> simp <;> omega
+/-- multi-line branch: keep unless beyond the range, clamp the end -/
+def keepML (re : Nat) (atEnd : Bool) (m : Span) : Bool := !beyondRange re atEnd m.s
+def trML (re : Nat) (m : Span) : Span := ⟨m.s, min m.e re⟩
+/-- line-oriented branch: keep everything, shift back by `rs` -/
+def trLine (rs : Nat) (m : Span) : Span := ⟨m.s + rs, m.e + rs⟩
 
-theorem step_cases (re : Nat) (atEnd : Bool) (acc : List Span) (m : Span) :
-    (step re atEnd acc m = (acc, false)) ∨
-    (step re atEnd acc m = (acc ++ [⟨m.s, min m.e re⟩], true) ∧ (m.s < re ∨ (atEnd = true ∧ m.s = re))) := by
-  unfold step
-  cases hb : beyondRange re atEnd m.s with
-  | true => left; simp
-  | false => right; exact ⟨by simp, (beyondRange_false_iff re atEnd m.s).mp hb⟩
-
+/-- the haystack shown to the matcher, the start position, and the callback, per branch -/
 theorem findIterInContext_eq (sc : SCfg) (find : Oracle) (bytes : Bytes) (rs re : Nat) :
     findIterInContext sc find bytes rs re =
-      iterGo id (find (cutHaystack sc bytes re)) (cutHaystack sc bytes re).length
-        (step re (isAtUnterminatedEnd sc.lt (cutHaystack sc bytes re) rs re))
-        ((cutHaystack sc bytes re).length + 2) rs none [] := rfl
+      if sc.multiLine then
+        iterGo id (find (cutHaystack sc bytes re)) (cutHaystack sc bytes re).length
+          (gstep (keepML re (isAtUnterminatedEnd sc.lt (cutHaystack sc bytes re) rs re)) (trML re))
+          ((cutHaystack sc bytes re).length + 2) rs none []
+      else
+        iterGo id (find (lineHaystack sc.lt bytes rs re)) (lineHaystack sc.lt bytes rs re).length
+          (gstep (fun _ => true) (trLine rs)) ((lineHaystack sc.lt bytes rs re).length + 2) 0 none [] := by
+  unfold findIterInContext findIterAt gstep keepML trML trLine
+  by_cases h : sc.multiLine = true
+  · simp only [h, ↓reduceIte]
+    congr 1
+    funext acc m
+    cases beyondRange re (isAtUnterminatedEnd sc.lt (cutHaystack sc bytes re) rs re) m.s <;> rfl
+  · simp only [h, Bool.false_eq_true, ↓reduceIte]
+
+theorem findIterInContext_shown (sc : SCfg) (find : Oracle) (bytes : Bytes) (rs re : Nat) :
+    findIterInContext sc find bytes rs re =
+      iterGo id (find (shownHay sc bytes rs re)) (shownHay sc bytes rs re).length
+        (if sc.multiLine then gstep (keepML re (isAtUnterminatedEnd sc.lt (cutHaystack sc bytes re) rs re)) (trML re)
+         else gstep (fun _ => true) (trLine rs))
+        ((shownHay sc bytes rs re).length + 2) (shownFrom sc rs) none [] := by
+  rw [findIterInContext_eq]
+  unfold shownHay shownFrom
+  by_cases h : sc.multiLine = true <;> simp [h]
 
 /-- unfolding of one round of the loop -/
 theorem iterGo_succ {σ : Type} (find : Nat → Option Span) (len : Nat) (f : σ → Span → σ × Bool)
@@ -70,9 +87,15 @@ theorem iterGo_find_none {σ : Type} (find : Nat → Option Span) (len : Nat) (f
     rw [iterGo_succ, h]
     split <;> rfl
 
+theorem gstep_cases (keep : Span → Bool) (tr : Span → Span) (acc : List Span) (m : Span) :
+    (gstep keep tr acc m = (acc, false) ∧ keep m = false) ∨
+    (gstep keep tr acc m = (acc ++ [tr m], true) ∧ keep m = true) := by
+  unfold gstep
+  cases h : keep m <;> simp
+
 /-- The collected list only grows: the accumulator stays a prefix. -/
-theorem iterGo_prefix (find : Nat → Option Span) (len re : Nat) (atEnd : Bool) :
-    ∀ fuel lastEnd lastMatch acc, ∃ t, iterGo id find len (step re atEnd) fuel lastEnd lastMatch acc = acc ++ t := by
+theorem iterGo_prefix (find : Nat → Option Span) (len : Nat) (keep : Span → Bool) (tr : Span → Span) :
+    ∀ fuel lastEnd lastMatch acc, ∃ t, iterGo id find len (gstep keep tr) fuel lastEnd lastMatch acc = acc ++ t := by
   intro fuel
   induction fuel with
   | zero => intro le lm acc; exact ⟨[], by simp [iterGo]⟩
@@ -86,117 +109,159 @@ theorem iterGo_prefix (find : Nat → Option Span) (len re : Nat) (atEnd : Bool)
       | none => exact ⟨[], by simp⟩
       | some m =>
         simp only
-        have hstep : (step re atEnd acc m = (acc, false)) ∨ (step re atEnd acc m = (acc ++ [⟨m.s, min m.e re⟩], true)) := by
-          rcases step_cases re atEnd acc m with h | ⟨h, _⟩
-          · exact Or.inl h
-          · exact Or.inr h
-        by_cases h1 : (m.s == m.e) = true
-        · simp only [h1, ↓reduceIte]
-          by_cases h2 : (some m.e == lm) = true
-          · simp only [h2, ↓reduceIte]; exact ih _ _ _
-          · simp only [h2, Bool.false_eq_true, ↓reduceIte]
-            rcases hstep with hs | hs
-            · rw [hs]; exact ⟨[], by simp⟩
-            · rw [hs]
-              simp only [↓reduceIte]
-              obtain ⟨t, ht⟩ := ih (m.e + 1) (some m.e) (acc ++ [⟨m.s, min m.e re⟩])
-              exact ⟨⟨m.s, min m.e re⟩ :: t, by rw [ht]; simp⟩
-        · simp only [h1, Bool.false_eq_true, ↓reduceIte]
-          rcases hstep with hs | hs
-          · rw [hs]; exact ⟨[], by simp⟩
-          · rw [hs]
-            simp only [↓reduceIte]
-            obtain ⟨t, ht⟩ := ih m.e (some m.e) (acc ++ [⟨m.s, min m.e re⟩])
-            exact ⟨⟨m.s, min m.e re⟩ :: t, by rw [ht]; simp⟩
+        rcases gstep_cases keep tr acc m with ⟨hs, _⟩ | ⟨hs, _⟩
+        · by_cases h1 : (m.s == m.e) = true
+          · simp only [h1, ↓reduceIte]
+            by_cases h2 : (some m.e == lm) = true
+            · simp only [h2, ↓reduceIte]; exact ih _ _ _
+            · simp only [h2, Bool.false_eq_true, ↓reduceIte, hs]; exact ⟨[], by simp⟩
+          · simp only [h1, Bool.false_eq_true, ↓reduceIte, hs]; exact ⟨[], by simp⟩
+        · by_cases h1 : (m.s == m.e) = true
+          · simp only [h1, ↓reduceIte]
+            by_cases h2 : (some m.e == lm) = true
+            · simp only [h2, ↓reduceIte]; exact ih _ _ _
+            · simp only [h2, Bool.false_eq_true, ↓reduceIte, hs]
+              obtain ⟨t, ht⟩ := ih (m.e + 1) (some m.e) (acc ++ [tr m])
+              exact ⟨tr m :: t, by rw [ht]; simp⟩
+          · simp only [h1, Bool.false_eq_true, ↓reduceIte, hs]
+            obtain ⟨t, ht⟩ := ih m.e (some m.e) (acc ++ [tr m])
+            exact ⟨tr m :: t, by rw [ht]; simp⟩
 
-/-- Invariant of everything that is collected, for a sane matcher: it starts at or after the start of the
-range, is well-formed, lies inside the haystack and inside the range (its end is clamped to `re`), and starts
-before `re` (or exactly at `re` under `atEnd`). -/
-def Collected (len rs re : Nat) (atEnd : Bool) (m : Span) : Prop :=
-  rs ≤ m.s ∧ m.s ≤ m.e ∧ m.e ≤ len ∧ m.e ≤ re ∧ (m.s < re ∨ (atEnd = true ∧ m.s = re))
-
-theorem iterGo_collected (find : Nat → Option Span) (len rs re : Nat) (atEnd : Bool) (hs : Sane find len) :
-    ∀ fuel lastEnd lastMatch acc, rs ≤ lastEnd → (∀ m ∈ acc, Collected len rs re atEnd m) →
-      ∀ m ∈ iterGo id find len (step re atEnd) fuel lastEnd lastMatch acc, Collected len rs re atEnd m := by
+/-- **Everything collected is a kept answer of the matcher**, given from a position at or after `from`. -/
+theorem iterGo_mem (find : Nat → Option Span) (len from_ : Nat) (keep : Span → Bool) (tr : Span → Span)
+    (hs : Sane find len) :
+    ∀ fuel lastEnd lastMatch acc, from_ ≤ lastEnd →
+      ∀ x ∈ iterGo id find len (gstep keep tr) fuel lastEnd lastMatch acc,
+        x ∈ acc ∨ ∃ p m, from_ ≤ p ∧ find p = some m ∧ keep m = true ∧ x = tr m := by
   intro fuel
   induction fuel with
-  | zero => intro le lm acc _ hacc; simpa [iterGo] using hacc
+  | zero => intro le lm acc _ x hx; left; simpa [iterGo] using hx
   | succ fuel ih =>
-    intro le lm acc hle hacc
-    rw [iterGo_succ]
+    intro le lm acc hle x hx
+    rw [iterGo_succ] at hx
     by_cases h : le > len
-    · simpa [h] using hacc
-    · simp only [h, ↓reduceIte]
+    · left; simpa [h] using hx
+    · simp only [h, ↓reduceIte] at hx
       cases hf : find le with
-      | none => simpa using hacc
+      | none => left; simpa [hf] using hx
       | some m =>
-        simp only
+        simp only [hf] at hx
         have hge := hs.ge le m hf
         have hme := hs.le le m hf
-        have hb := hs.bound le m hf
-        have hstep := step_cases re atEnd acc m
-        have hnew : ∀ x ∈ acc ++ [⟨m.s, min m.e re⟩], (m.s < re ∨ (atEnd = true ∧ m.s = re)) →
-            Collected len rs re atEnd x := by
-          intro x hx hcond
-          rcases List.mem_append.mp hx with hx | hx
-          · exact hacc x hx
-          · simp only [List.mem_singleton] at hx
-            subst hx
-            refine ⟨by simp only; omega, by simp only; omega, by simp only; omega, by simp only; omega, hcond⟩
-        by_cases h1 : (m.s == m.e) = true
-        · simp only [h1, ↓reduceIte]
-          by_cases h2 : (some m.e == lm) = true
-          · simp only [h2, ↓reduceIte]
-            exact ih _ _ _ (by omega) hacc
-          · simp only [h2, Bool.false_eq_true, ↓reduceIte]
-            rcases hstep with hs' | ⟨hs', hcond⟩
-            · rw [hs']; simpa using hacc
-            · rw [hs']
-              simp only [↓reduceIte]
-              exact ih _ _ _ (by omega) (fun x hx => hnew x hx hcond)
-        · simp only [h1, Bool.false_eq_true, ↓reduceIte]
-          rcases hstep with hs' | ⟨hs', hcond⟩
-          · rw [hs']; simpa using hacc
-          · rw [hs']
-            simp only [↓reduceIte]
-            exact ih _ _ _ (by omega) (fun x hx => hnew x hx hcond)
+        have lift : ∀ le' lm', from_ ≤ le' →
+            x ∈ iterGo id find len (gstep keep tr) fuel le' lm' (acc ++ [tr m]) → keep m = true →
+            x ∈ acc ∨ ∃ p m, from_ ≤ p ∧ find p = some m ∧ keep m = true ∧ x = tr m := by
+          intro le' lm' hle' hx' hk
+          rcases ih le' lm' (acc ++ [tr m]) hle' x hx' with h1 | h1
+          · rcases List.mem_append.mp h1 with h2 | h2
+            · exact Or.inl h2
+            · simp only [List.mem_singleton] at h2
+              exact Or.inr ⟨le, m, hle, hf, hk, h2⟩
+          · exact Or.inr h1
+        rcases gstep_cases keep tr acc m with ⟨hst, _⟩ | ⟨hst, hk⟩
+        · by_cases h1 : (m.s == m.e) = true
+          · simp only [h1, ↓reduceIte] at hx
+            by_cases h2 : (some m.e == lm) = true
+            · simp only [h2, ↓reduceIte] at hx
+              exact ih _ _ _ (by omega) x hx
+            · simp only [h2, Bool.false_eq_true, ↓reduceIte, hst] at hx; exact Or.inl hx
+          · simp only [h1, Bool.false_eq_true, ↓reduceIte, hst] at hx; exact Or.inl hx
+        · by_cases h1 : (m.s == m.e) = true
+          · simp only [h1, ↓reduceIte] at hx
+            by_cases h2 : (some m.e == lm) = true
+            · simp only [h2, ↓reduceIte] at hx
+              exact ih _ _ _ (by omega) x hx
+            · simp only [h2, Bool.false_eq_true, ↓reduceIte, hst] at hx
+              exact lift _ _ (by omega) hx hk
+          · simp only [h1, Bool.false_eq_true, ↓reduceIte, hst] at hx
+            exact lift _ _ (by omega) hx hk
 
-/-- Everything `find_iter_at_in_context` reports, for a matcher that is sane on the cut haystack. -/
-theorem findIterInContext_collected (sc : SCfg) (find : Oracle) (bytes : Bytes) (rs re : Nat)
-    (hs : Sane (find (cutHaystack sc bytes re)) (cutHaystack sc bytes re).length) :
-    ∀ m ∈ findIterInContext sc find bytes rs re,
-      Collected (cutHaystack sc bytes re).length rs re
-        (isAtUnterminatedEnd sc.lt (cutHaystack sc bytes re) rs re) m := by
-  rw [findIterInContext_eq]
-  exact iterGo_collected _ _ rs re _ hs _ rs none [] (Nat.le_refl _) (by simp)
-
-/-- The first answer of the matcher, when it starts inside the range, is the first match reported. -/
-theorem findIterInContext_head (sc : SCfg) (find : Oracle) (bytes : Bytes) (rs re : Nat) (m : Span)
-    (hrs : rs ≤ (cutHaystack sc bytes re).length)
-    (hf : find (cutHaystack sc bytes re) rs = some m)
-    (hin : m.s < re ∨ (isAtUnterminatedEnd sc.lt (cutHaystack sc bytes re) rs re = true ∧ m.s = re)) :
-    ∃ t, findIterInContext sc find bytes rs re = ⟨m.s, min m.e re⟩ :: t := by
-  rw [findIterInContext_eq]
-  have hfuel : (cutHaystack sc bytes re).length + 2 = ((cutHaystack sc bytes re).length + 1) + 1 := rfl
-  rw [hfuel, iterGo_succ]
-  have hnot : ¬ rs > (cutHaystack sc bytes re).length := by omega
+/-- The first answer of the matcher, when kept, is the first match recorded. -/
+theorem iterGo_head (find : Nat → Option Span) (len from_ : Nat) (keep : Span → Bool) (tr : Span → Span) (m : Span)
+    (hfrom : from_ ≤ len) (hf : find from_ = some m) (hk : keep m = true) (fuel : Nat) :
+    ∃ t, iterGo id find len (gstep keep tr) (fuel + 1) from_ none [] = tr m :: t := by
+  rw [iterGo_succ]
+  have hnot : ¬ from_ > len := by omega
   simp only [hnot, ↓reduceIte, hf]
-  have hstep : step re (isAtUnterminatedEnd sc.lt (cutHaystack sc bytes re) rs re) [] m = ([⟨m.s, min m.e re⟩], true) := by
-    unfold step
-    rw [(beyondRange_false_iff re _ m.s).mpr hin]
-    rfl
+  have hstep : gstep keep tr [] m = ([tr m], true) := by unfold gstep; simp [hk]
   by_cases h1 : (m.s == m.e) = true
   · simp only [h1, ↓reduceIte]
     have h2 : (some m.e == (none : Option Nat)) = false := rfl
     simp only [h2, Bool.false_eq_true, ↓reduceIte, hstep]
-    obtain ⟨t, ht⟩ := iterGo_prefix (find (cutHaystack sc bytes re)) (cutHaystack sc bytes re).length re
-      (isAtUnterminatedEnd sc.lt (cutHaystack sc bytes re) rs re) ((cutHaystack sc bytes re).length + 1) (m.e + 1)
-      (some m.e) [⟨m.s, min m.e re⟩]
+    obtain ⟨t, ht⟩ := iterGo_prefix find len keep tr fuel (m.e + 1) (some m.e) [tr m]
     exact ⟨t, by rw [ht]; rfl⟩
   · simp only [h1, Bool.false_eq_true, ↓reduceIte, hstep]
-    obtain ⟨t, ht⟩ := iterGo_prefix (find (cutHaystack sc bytes re)) (cutHaystack sc bytes re).length re
-      (isAtUnterminatedEnd sc.lt (cutHaystack sc bytes re) rs re) ((cutHaystack sc bytes re).length + 1) m.e
-      (some m.e) [⟨m.s, min m.e re⟩]
+    obtain ⟨t, ht⟩ := iterGo_prefix find len keep tr fuel m.e (some m.e) [tr m]
+    exact ⟨t, by rw [ht]; rfl⟩
+
+theorem beyondRange_false_iff (re : Nat) (atEnd : Bool) (s : Nat) :
+    beyondRange re atEnd s = false ↔ (s < re ∨ (atEnd = true ∧ s = re)) := by
+  unfold beyondRange
+  cases atEnd <;> simp <;> omega
+
+theorem trim_le' (lt : LineTerm) (buf : Bytes) (s e : Nat) : trimLineTerminator lt buf s e ≤ e := by
+  unfold trimLineTerminator
+  split
+  · simp only; split <;> omega
+  · exact Nat.le_refl _
+
+theorem lineHaystack_length_le (lt : LineTerm) (bytes : Bytes) (rs re : Nat) :
+    (lineHaystack lt bytes rs re).length ≤ re - rs := by
+  unfold lineHaystack slice
+  have := trim_le' lt bytes rs re
+  simp only [List.length_drop, List.length_take]
+  omega
+
+/-- **Everything `find_iter_at_in_context` reports lies inside the range**, for a matcher that is sane on the
+haystack it is shown: `rs ≤ start ≤ end ≤ re`. -/
+theorem findIterInContext_inside (sc : SCfg) (find : Oracle) (bytes : Bytes) (rs re : Nat) (hrr : rs ≤ re)
+    (hs : Sane (find (shownHay sc bytes rs re)) (shownHay sc bytes rs re).length) :
+    ∀ m ∈ findIterInContext sc find bytes rs re, rs ≤ m.s ∧ m.s ≤ m.e ∧ m.e ≤ re := by
+  intro x hx
+  rw [findIterInContext_shown] at hx
+  by_cases hml : sc.multiLine = true
+  · simp only [hml, ↓reduceIte] at hx
+    have hfrom : shownFrom sc rs = rs := by simp [shownFrom, hml]
+    rw [hfrom] at hx
+    rcases iterGo_mem _ _ rs _ _ hs _ rs none [] (Nat.le_refl _) x hx with h | ⟨p, m, hp, hf, hk, rfl⟩
+    · simp at h
+    · have h1 := hs.ge p m hf
+      have h2 := hs.le p m hf
+      have hk' := (beyondRange_false_iff re _ m.s).mp (by simpa [keepML] using hk)
+      simp only [trML]
+      refine ⟨by omega, ?_, by omega⟩
+      rcases hk' with h | ⟨_, h⟩ <;> omega
+  · simp only [hml, Bool.false_eq_true, ↓reduceIte] at hx
+    have hfrom : shownFrom sc rs = 0 := by simp [shownFrom, hml]
+    rw [hfrom] at hx
+    rcases iterGo_mem _ _ 0 _ _ hs _ 0 none [] (Nat.le_refl _) x hx with h | ⟨p, m, _, hf, _, rfl⟩
+    · simp at h
+    · have h2 := hs.le p m hf
+      have h3 := hs.bound p m hf
+      have hlen : (shownHay sc bytes rs re).length ≤ re - rs := by
+        simp only [shownHay, hml, Bool.false_eq_true, ↓reduceIte]
+        exact lineHaystack_length_le sc.lt bytes rs re
+      simp only [trLine]
+      exact ⟨by omega, by omega, by omega⟩
+
+/-- The first answer of the matcher from the start of the range — when it starts inside the range in multi-line
+mode; always in line-oriented mode — is the first match reported (shifted / clamped as the branch does). -/
+theorem findIterInContext_head (sc : SCfg) (find : Oracle) (bytes : Bytes) (rs re : Nat) (m : Span)
+    (hrs : shownFrom sc rs ≤ (shownHay sc bytes rs re).length)
+    (hf : find (shownHay sc bytes rs re) (shownFrom sc rs) = some m)
+    (hin : sc.multiLine = true →
+      (m.s < re ∨ (isAtUnterminatedEnd sc.lt (cutHaystack sc bytes re) rs re = true ∧ m.s = re))) :
+    ∃ t, findIterInContext sc find bytes rs re =
+      (if sc.multiLine then (⟨m.s, min m.e re⟩ : Span) else ⟨m.s + rs, m.e + rs⟩) :: t := by
+  rw [findIterInContext_shown]
+  by_cases hml : sc.multiLine = true
+  · simp only [hml, ↓reduceIte]
+    have hk : keepML re (isAtUnterminatedEnd sc.lt (cutHaystack sc bytes re) rs re) m = true := by
+      simp [keepML, (beyondRange_false_iff re _ m.s).mpr (hin hml)]
+    obtain ⟨t, ht⟩ := iterGo_head _ _ _ _ (trML re) m hrs hf hk ((shownHay sc bytes rs re).length + 1)
+    exact ⟨t, by rw [ht]; rfl⟩
+  · simp only [hml, Bool.false_eq_true, ↓reduceIte]
+    obtain ⟨t, ht⟩ := iterGo_head _ _ _ (fun _ => true) (trLine rs) m hrs hf rfl ((shownHay sc bytes rs re).length + 1)
     exact ⟨t, by rw [ht]; rfl⟩
 
 end RgVerif.Lemmas.PrinterIter
